@@ -228,3 +228,52 @@ def run(chk):
               fault_of=lambda b: FAULTS[b % len(FAULTS)], post=post, sevmix=True)
     fidelity(chk, quick)
     many_blocks(chk, quick)
+    identical_and_transient(chk, quick)
+
+
+def identical_and_transient(chk, quick):
+    """(a) Blocks with the same condition and the same content are still asked one by one, and each reply decides for
+    its own block; (b) a fault on the only request of a block fails the run even if the endpoint would answer a second
+    attempt: exactly one request is sent, nothing is retried behind the user's back."""
+    fake = FakeOpenAI()
+    try:
+        cases, meta = [], {}
+        blk = '# <block name="n" check-ai="same question [[%s]]">\nsame content\n# </block>\n'
+        for k, (files, seq, want_req, want_diag) in enumerate([
+                (["pkg_a/notice.py", "pkg_b/notice.py"], ["OK", "objection"], 2, 1),
+                (["pkg_a/notice.py", "pkg_b/notice.py", "pkg_c/notice.py"], ["objection", "OK", "OK"], 3, 1),
+                (["one.py", "one.py", "one.py"], ["OK", "objection 1", "objection 2"], 3, 2)]):
+            key = "ident%d" % k
+            fake.behaviour[key] = {"seq": [{"reply": r} for r in seq]}
+            fl = {}
+            for f in files:
+                fl[f] = fl.get(f, "") + blk % key
+            cid = "ident%d" % k
+            cases.append({"id": cid, "files": fl, "diff": None, "args": [], "terminal": True,
+                          "env": {"BLOCKWATCH_AI_API_URL": fake.url, "BLOCKWATCH_AI_API_KEY": "k", "TOKIO_WORKER_THREADS": str([1, 4, 16][k % 3])}})
+            meta[cid] = ("ident", key, want_req, want_diag)
+        for k, fault in enumerate(FAULTS[:7]):
+            key = "transient%d" % k
+            fake.behaviour[key] = {"seq": [{"fault": fault}, {"reply": "OK"}, {"reply": "OK"}]}
+            cid = "transient%d" % k
+            cases.append({"id": cid, "files": {"t.py": '# <block name="t" check-ai="c [[%s]]">\nbody\n# </block>\n' % key}, "diff": None,
+                          "args": [], "terminal": True, "env": {"BLOCKWATCH_AI_API_URL": fake.url, "BLOCKWATCH_AI_API_KEY": "k"}})
+            meta[cid] = ("transient", key, 1, fault)
+        res = vlib.run_cli(cases, timeout=90)
+        for c in cases:
+            kind, key, want_req, extra = meta[c["id"]]
+            r = res[c["id"]]
+            nreq = len(fake.requests_for(key))
+            chk.count(nontrivial=True)
+            detail = {"concrete": c, "requests": nreq, "observed": {k2: r.get(k2) for k2 in ("outcome", "exit", "report", "error")}}
+            if kind == "ident":
+                nd = sum(1 for ds in (r.get("report") or {}).values() for d in ds if d["code"] == "check-ai")
+                if r["outcome"] != "ok" or nreq != want_req or nd != extra or r["exit"] != 1:
+                    chk.violation("%d identical AI blocks (same condition, same content): %d requests (one per block expected), %d diagnostics "
+                                  "(%d replies were objections), exit %s" % (want_req, nreq, nd, extra, r["exit"]), detail)
+            else:
+                if r["outcome"] != "error" or r["exit"] == 0 or nreq != 1:
+                    chk.violation("fault %s on the only request of a block (the endpoint would answer a second attempt): outcome %s, exit %s, "
+                                  "%d requests sent" % (extra, r["outcome"], r["exit"], nreq), detail)
+    finally:
+        fake.close()
